@@ -10,6 +10,7 @@ import (
 	"os"
 	"os/exec"
 	"strings"
+	"sync"
 
 	"github.com/gregoryv/mq"
 
@@ -30,7 +31,7 @@ func init() {
 		Level: "model_checking",
 		Rule: "(A) determinism on the map-order seam: the instrumenter rewrites every range over a map in the library into an iteration whose order is a choice of the explorer; for CONNECT with every subset of the six will properties (top level empty and full) and for the full packet of every type with every one or two optional fields removed, EVERY combination of iteration orders of every map range executed by WriteTo (and, separately, by String and Dump) is explored and must give identical bytes/text — Go leaves the order unspecified, so each is a legal execution. " +
 			"(B) read-only: explicit-state search with operations {WriteTo, String, Dump, WellFormed, all accessors, WriteTo into a writer that fails after one byte} on packets of the bases, of every <=2 (quick) / <=3 (thorough) field deviation in presence from either base and of every single-field deviation to every boundary value below 16 KiB (127/128-byte strings, integer extremes, every list shape): for every operation sequence of length <=3, after every operation the deep digest of the packet's concrete object graph and of all package-level variables is compared with the initial one: an identical digest proves the transition is a self-loop; if it differs, WriteTo bytes, every accessor, String and Dump are compared with their initial values and any difference is a violation (a state change without observable effect, e.g. an internal cache, is counted but is no violation). " +
-			"Every target is also written to five other writer implementations, among them bufio writers that were used before (their buffer memory holds 0xa5 bytes): the bytes must be those written to a bytes.Buffer. (C) cross-check on the free-running (un-instrumented) runtime: the corpus is encoded 50x in each of three separate processes and fingerprints compared. (D) static scan of the library for other nondeterminism sources. " +
+			"Every target is also written to five other writer implementations, among them bufio writers that were used before (their buffer memory holds 0xa5 bytes): the bytes must be those written to a bytes.Buffer. (C) cross-check on the free-running (un-instrumented) runtime: the corpus is encoded 50x in each of twelve separate processes and fingerprints compared (an order drawn once per process, before any seam exists, shows as a difference between processes). (D) static scan of the library for other nondeterminism sources. " +
 			"states = distinct (packet, digest) states; transitions = operations + explored orderings; distinct_nontrivial = distinct (packet, ordering vector) and (packet, operation sequence) executions.",
 		Assumptions: []string{
 			"map iteration order is the only order nondeterminism the Go runtime introduces into sequential code; the clock is owned through a seam (time.Now/Since/Until of the library read a clock the harness advances by 2.5 s per library call); other sources (rand, %p, goroutines) are scanned for statically and listed if present",
@@ -647,14 +648,30 @@ func runC11(x *core.Ctx) {
 	// (C) cross-process fingerprints on the plain build
 	if x.Shard == 0 {
 		if bin := os.Getenv("VERIF_PLAIN_BIN"); bin != "" {
+			// twelve processes: an order drawn once per process (at package
+			// initialisation, before any seam can be installed) differs between
+			// at least two of them with probability 1 - 2^-11 already when only
+			// two orders are possible
+			const nproc = 12
+			outs := make([]string, nproc)
+			errs := make([]error, nproc)
+			var wg sync.WaitGroup
+			for i := 0; i < nproc; i++ {
+				wg.Add(1)
+				go func(i int) {
+					defer wg.Done()
+					out, err := exec.Command(bin, "-fingerprint").Output()
+					outs[i], errs[i] = strings.TrimSpace(string(out)), err
+				}(i)
+			}
+			wg.Wait()
 			var fps []string
-			for i := 0; i < 3; i++ {
-				out, err := exec.Command(bin, "-fingerprint").Output()
-				if err != nil {
-					x.Cap("fingerprint process failed: " + err.Error())
+			for i := range outs {
+				if errs[i] != nil {
+					x.Cap("fingerprint process failed: " + errs[i].Error())
 					break
 				}
-				fps = append(fps, strings.TrimSpace(string(out)))
+				fps = append(fps, outs[i])
 			}
 			x.R.Extra["cross_process_fingerprints"] = len(fps)
 			bad := ""
